@@ -19,9 +19,13 @@ def run_history(h, props=None):
     from ECAgent.Core import Model, Agent, System
     from ECAgent.Collectors import AgentCollector, FileCollector
     out = []
+
+    class UModel(Model):
+        _verif_user = True
+        timestep = 0.25            # the user's own attribute (hours per tick): not the scheduler's step counter
     if h[0] == 'agent':
         _, incl, comp_kind, (start, end, freq), ops = h
-        m = Model(seed=1)
+        m = UModel(seed=1)
         vals = {}
         shared = {'n': 0}
 
@@ -106,7 +110,7 @@ def run_history(h, props=None):
     else:
         _, write_count, counts = h[:3]
         fstart, fend, ffreq = h[3] if len(h) > 3 else (0, None, 1)
-        m = Model(seed=1)
+        m = UModel(seed=1)
         fd, path = tempfile.mkstemp(prefix='verif-c17-', suffix='.txt')
         os.close(fd)
         os.unlink(path)
@@ -120,8 +124,11 @@ def run_history(h, props=None):
                     n = plan[self.model.systems.timestep] if self.model.systems.timestep < len(plan) else 0
                     for i in range(n):
                         self.records.append(f't{self.model.systems.timestep}.r{i}\n')
-            fc = Lines('fc', m, path, write_count=write_count, start=fstart, end=BIG if fend is None else fend,
-                       frequency=ffreq)
+            import numpy as np
+            # the flag arrives as whatever truthy value the caller computed it as
+            flag = (True, np.True_, 1)[(write_count + len(counts)) % 3]
+            fc = Lines('fc', m, path, write_count=write_count, clear_records_on_write=flag, start=fstart,
+                       end=BIG if fend is None else fend, frequency=ffreq)
             m.systems.add_system(fc)
             collected = []
             ncoll = 0
